@@ -21,6 +21,10 @@ PROPS = {
             "rule": "random response API histories (status, replace/append headers over a case-variant name pool, whole maps with repeated names, explicit/implicit head, body chunks to 70 000 bytes, error/redirect/JSON), acknowledgements, post-close calls"},
     "C04": {"count": {"quick": 2500, "thorough": 40000}, "trusted": SOCK_TRUSTED,
             "rule": "rejected heads x segmentations x number of segments buffered before construction x trailing data x late events"},
+    "C17": {"count": {"quick": 500, "thorough": 8000},
+            "trusted": ["observed, not modelled: file modes and umask (stat(2)), the home directory, QJsonDocument (the file is represented by its top-level keys), QUuid (token distinctness across instances is QUuid's property; the harness checks a previous instance's token is refused)",
+                        "the token comparison is made on bytes in the repaired code; header lookup is the case-insensitive header map (C01)"],
+            "rule": "life cycles: optional umask {000,022,027,077,002}, optional pre-existing permissive file, create, then 0-7 of setData / setHeaderName / requests (exact token, upper-cased, last char dropped, braces stripped, NUL suffix, BOM prefix, previous instance's token, guesses, no header; under the configured, a case variant or another header name) / destroy+create / umask changes; stat + JSON parse after every call with HOME redirected to a scratch directory"},
     "C18": {"count": {"quick": 4000, "thorough": 100000}, "trusted": SOCK_TRUSTED,
             "rule": "all compositions of the acknowledgement sizes around the header/body edge for a small response, then random header sets, body writes and acknowledgement pieces"},
     "C19": {"count": {"quick": 2500, "thorough": 50000}, "trusted": SOCK_TRUSTED,
@@ -64,6 +68,8 @@ LEVEL = {
          "documented preconditions (CR/LF-free tokens, one head) are explicit in `wfOps`; kernel socket buffering is Qt/OS."),
  "C04": ("Theorems: a rejected head yields exactly one 400 with consistent Content-Length, the transport closed, no notification or routing, for every segmentation and pre-buffering; tie: malformed heads x segmentations x pre-buffered prefixes on the real Socket.",
          "as C01/C02."),
+ "C17": ("Theorems over the middleware's state machine for every operation sequence, umask and pre-existing file: between construction and destruction the file exists with mode 0600 and holds the data keys plus the current token; a request is admitted iff the configured header carries exactly the token; the file is removed on destruction; tie: life cycles on the real middleware with stat()/JSON inspection after every call. Partial: modes, randomness and the home directory are observations of the OS and Qt.",
+         "partial: OS file modes and QUuid uniqueness are observed, not proved."),
  "C18": ("Theorems: the sum of notified counts is max 0 (acked - H) at every point (inductive invariant over write/ack interleavings); tie: exhaustive ack compositions around the header edge + random runs on the real Socket; onBytesWritten regenerated from the C++ and bridge-proved equal to the model.",
          "SimTcp acknowledgements stand for QTcpSocket::bytesWritten."),
  "C19": ("Theorems: headersParsed at most once per run, the wire is frozen once the transport is closed, disconnect follows the last acknowledgement; tie: pipelined/garbage streams x handler behaviours x post-close calls on the real Socket.",
